@@ -37,14 +37,14 @@ Bool(b) == IF b THEN True1 ELSE False1
 
 PadRight(b, n) == b \o [i \in 1..(n - Len(b)) |-> 0]
 
-Max(a, b) == IF a >= b THEN a ELSE b
-Min(a, b) == IF a <= b THEN a ELSE b
+MaxI(a, b) == IF a >= b THEN a ELSE b
+MinI(a, b) == IF a <= b THEN a ELSE b
 
-XorB(a, b) == LET n == Max(Len(a), Len(b)) pa == PadRight(a, n) pb == PadRight(b, n)
+XorB(a, b) == LET n == MaxI(Len(a), Len(b)) pa == PadRight(a, n) pb == PadRight(b, n)
               IN [i \in 1..n |-> pa[i] ^^ pb[i]]
-OrB(a, b)  == LET n == Max(Len(a), Len(b)) pa == PadRight(a, n) pb == PadRight(b, n)
+OrB(a, b)  == LET n == MaxI(Len(a), Len(b)) pa == PadRight(a, n) pb == PadRight(b, n)
               IN [i \in 1..n |-> pa[i] | pb[i]]
-AndB(a, b) == LET n == Max(Len(a), Len(b)) pa == PadRight(a, n) pb == PadRight(b, n)
+AndB(a, b) == LET n == MaxI(Len(a), Len(b)) pa == PadRight(a, n) pb == PadRight(b, n)
               IN [i \in 1..n |-> pa[i] & pb[i]]
 NotB(a)    == [i \in 1..Len(a) |-> 255 - a[i]]
 
